@@ -502,6 +502,16 @@ def _noreturn(st, errvars):
     return False
 
 
+def guard_text(n, pol, decls, count):
+    """(text, polarity) of a guard with `!(a != b)` / `!(a == b)` folded into the comparison."""
+    x = cir.strip(n)
+    if not pol and x is not None and x.get("k") == "BinaryOperator" and x.get("op") in ("==", "!="):
+        a, b = cir.kids(x)
+        flip = "==" if x.get("op") == "!=" else "!="
+        return f"{resolved(a, decls, count)} {flip} {resolved(b, decls, count)}", True
+    return resolved(n, decls, count), pol
+
+
 def for_header(loop):
     """(var, lower text, upper text) of `for (int v = L; v < U; v++)`, else None"""
     if loop.get("k") != "ForStmt":
@@ -532,16 +542,19 @@ def for_header(loop):
 
 
 def callback_sweeps(unit, cutoff):
-    """For every function that makes an indirect call (sensor callback / plugin compute) and also calls the cutoff
-    function: the indirect call, the sweep loop(s) that follow it, their guards."""
+    """For every indirect call that receives a writable mjData* (sensor callback / plugin compute): the call, the
+    cutoff sweep loop(s) that follow it in an enclosing block, their guards."""
     out = []
     for fname, fn in unit.funcs.items():
         if fname in cutoff:
             continue
-        cuts = [c for c in cir.calls(fn) if cir.callee(c) in cutoff]
-        ind = [c for c in cir.calls(fn) if cir.callee(c) is None or
-               (cir.callee_expr(c) is not None and cir.callee_expr(c).get("k") == "MemberExpr")]
-        if not cuts or not ind:
+        ind = []
+        for c in cir.calls(fn):
+            if cir.callee(c) is None or (cir.callee_expr(c) is not None and cir.callee_expr(c).get("k") == "MemberExpr"):
+                # an indirect call that receives a writable mjData can fill sensordata
+                if any((a.get("t") or "").replace(" ", "") in ("mjData*", "structmjData_*") for a in cir.args(c)):
+                    ind.append(c)
+        if not ind:
             continue
         decls, count = local_decls(fn)
         errvars = paths.error_msg_vars(fn)
@@ -568,7 +581,7 @@ def callback_sweeps(unit, cutoff):
                             rec["sweeps"].append({
                                 "line": c.get("line"), "header": hdr, "index": resolved(a[ipos], decls, count),
                                 "slice": resolved(a[spos], decls, count),
-                                "guards": [(resolved(n, decls, count), pol) for n, pol in g]})
+                                "guards": [guard_text(n, pol, decls, count) for n, pol in g]})
                 if found:
                     break
                 # walk outwards only if the callback is not inside a conditional of this block (same iteration)
@@ -779,13 +792,43 @@ def lazy_cases(unit, fname, index_param, producers, owners, callee_reads):
 
 # ----------------------------------------------------------------------------------------------- written extent per case
 
-# callee -> how many elements it writes through the given argument: an int, or ("arg", k) = the value of argument k
-WRITE_EXTENT = {
-    "mju_copy3": (0, 3), "mju_zero3": (0, 3), "mju_copy4": (0, 4), "mju_normalize4": (0, 4), "mju_mulQuat": (0, 4),
-    "mju_mulMatTVec3": (0, 3), "mju_mulMatVec3": (0, 3), "mju_normalize3": (0, 3),
-    "mju_copy": (0, ("arg", 2)), "mju_zero": (0, ("arg", 1)), "mju_mulMatTVec": (0, ("arg", 4)),
-    "mju_mulMatVec": (0, ("arg", 3)),
+# callee -> (pointer argument, index of the argument that holds the number of elements written through it)
+# (functions of the public API whose output extent is a run-time argument; fixed extents are not tabulated: they are
+# read from the declared array parameter, e.g. `void mju_copy3(mjtNum res[3], ...)`)
+COUNT_ARG = {
+    "mju_copy": (0, 2),         # mju_copy(res, vec, n): n elements
+    "mju_zero": (0, 1),         # mju_zero(res, n): n elements
+    "mju_mulMatTVec": (0, 4),   # mju_mulMatTVec(res, mat, vec, nr, nc): res has nc elements
+    "mju_mulMatVec": (0, 3),    # mju_mulMatVec(res, mat, vec, nr, nc): res has nr elements
 }
+_DECL_EXT = {}
+
+
+def declared_extent(name, j):
+    """K if parameter j of the public function `name` is declared `T p[K]` in the headers, else None."""
+    import os
+    import re as _re
+    from . import cfront, ctypeinfo
+    key = (cfront.REPO, name, j)
+    if key in _DECL_EXT:
+        return _DECL_EXT[key]
+    val = None
+    p = ctypeinfo.load()["protos"].get(name)
+    if p is not None:
+        f = p.get("file") or p.get("nfile")
+        ps = [q for q in cir.kids(p) if q is not None and q.get("k") == "ParmVarDecl"]
+        if j < len(ps) and ps[j].get("off") is not None and ps[j].get("end") is not None:
+            pf = ps[j].get("file") or f
+            try:
+                with open(pf if pf.startswith("/") else os.path.join(cfront.REPO, pf), "rb") as fh:
+                    src = fh.read()[ps[j]["off"]:ps[j]["end"]].decode("utf-8", "replace")
+                m = _re.search(r"\[\s*(\d+)\s*\]\s*$", src)
+                if m and "const" not in src.split("[")[0]:
+                    val = int(m.group(1))
+            except OSError:
+                val = None
+    _DECL_EXT[key] = val
+    return val
 
 
 class ExtentRule(paths.Rule):
@@ -858,20 +901,22 @@ class ExtentRule(paths.Rule):
             if cir.text(s) != self.slice:
                 st = (st[0], st[1], st[2] or f"`{cir.text(s)}` is passed to {name}()")
                 continue
-            we = WRITE_EXTENT.get(name)
-            if we is not None and we[0] == j:
-                ext = we[1]
-                if isinstance(ext, tuple):
-                    av = cir.strip(cir.args(node)[ext[1]])
-                    if av is not None and av.get("k") == "IntegerLiteral":
-                        st = (max(st[0], int(str(av.get("v")), 0)), st[1], st[2])
-                    elif self.dim_text and resolved(av, self.decls, self.count).endswith(self.dim_text):
-                        st = (st[0], True, st[2])
-                    else:
-                        st = (st[0], st[1], st[2] or f"{name}() writes `{cir.text(av)}` elements")
+            ca = COUNT_ARG.get(name)
+            if ca is not None and ca[0] == j:
+                av = cir.strip(cir.args(node)[ca[1]])
+                if av is not None and av.get("k") == "IntegerLiteral":
+                    st = (max(st[0], int(str(av.get("v")), 0)), st[1], st[2])
+                elif self.dim_text and resolved(av, self.decls, self.count).endswith(self.dim_text):
+                    st = (st[0], True, st[2])
                 else:
-                    st = (max(st[0], ext), st[1], st[2])
+                    st = (st[0], st[1], st[2] or f"{name}() writes `{cir.text(av)}` elements")
                 continue
+            local = self.unit.funcs.get(name)
+            if local is None or (local.get("file") or self.unit.tu) != self.unit.tu:
+                k = declared_extent(name, j)
+                if k is not None:
+                    st = (max(st[0], k), st[1], st[2])
+                    continue
             sub = self.unit.funcs.get(name)
             if sub is not None and self.depth < 3 and (sub.get("file") or self.unit.tu) == self.unit.tu:
                 ps = cir.params(sub)
@@ -940,3 +985,34 @@ def case_extents(unit, fname, index_param, slice_param):
         ex.run()
         out[T] = _combine(ex.ctx.exits)
     return out
+
+
+# ----------------------------------------------------------------------------------------------- per-TU worker
+
+def tu_summary(unit, family):
+    """One pass per TU (worker process): call-graph summary with reads (sa.callgraph), lazy-flag assignments with their
+    values, literal store indices of the flag-setting functions, and the call sites of the slice family."""
+    from . import callgraph, r_lazy
+    s = callgraph._unit_summary(unit, ["mjData"], True)
+    fa = r_lazy.flag_access(unit)
+    setters = {}
+    for name, f in fa.items():
+        vals = {}
+        for flag, v, line in f["sets"]:
+            vals.setdefault(flag, set()).add(v)
+        ones = sorted(fl for fl, vs in vals.items() if vs == {"1"})
+        if ones:
+            fn = unit.funcs[name]
+            fields = set()
+            for n in cir.walk(fn):
+                k = n.get("k")
+                if (k == "BinaryOperator" and n.get("op") == "=") or k == "CompoundAssignOperator":
+                    rf = modref.root_field(cir.kids(n)[0])
+                    if rf is not None and rf[0] == "mjData" and rf[2] > 0:
+                        fields.add(rf[1])
+            setters[name] = {"flags": ones, "file": fn.get("file") or unit.tu,
+                             "indices": {f2: (sorted(ix) if (ix := producer_indices(fn, f2)) else None) for f2 in fields}}
+    fam = {k: tuple(v) for k, v in family}
+    s["flag_setters"] = setters
+    s["slice_calls"] = slice_calls(unit, fam) if fam else []
+    return s
